@@ -413,14 +413,32 @@ class Interp:
     def ev_GeneratorExp(self, n):
         return Other('generator')
 
-    ev_ListComp = ev_GeneratorExp
+    def ev_ListComp(self, n):
+        """[f(x) for x in <user list>]: element-wise, in order."""
+        if len(n.generators) == 1 and not n.generators[0].ifs:
+            it = self.ev(n.generators[0].iter)
+            if isinstance(it, ListV):
+                out = []
+                for e in list(it.items):
+                    self.assign(n.generators[0].target, e)
+                    out.append(self.ev(n.elt))
+                return ListV(out, user=False)
+        return Other('generator')
 
     def ev_JoinedStr(self, n):
         return Other('str')
 
     def ev_Call(self, n):
         f = n.func
-        args = [self.ev(a) for a in n.args]
+        args = []
+        for a in n.args:
+            if isinstance(a, ast.Starred):
+                v = self.ev(a.value)
+                if not isinstance(v, Tup):
+                    raise Incomplete(f"starred argument {v!r} at line {n.lineno}")
+                args.extend(v.items)
+            else:
+                args.append(self.ev(a))
         if isinstance(f, ast.Name):
             name = f.id
             if name == 'isinstance':
